@@ -191,7 +191,12 @@ temporary_stack_initializer::~temporary_stack_initializer() noexcept
     // but can get rid of all the memory
     FOONATHAN_MEMORY_VERIF_YIELD("temp.initializer.dtor");
     if (temp_stack)
+    {
         temporary_stack_list_obj.clear(*temp_stack);
+        // the stack is marked as free now, another thread can take it: this thread must not keep using it
+        // (and must not give it back a second time on thread exit); it gets a stack again on next use
+        temp_stack = nullptr;
+    }
 }
 
 temporary_stack& foonathan::memory::get_temporary_stack(std::size_t initial_size)
